@@ -185,6 +185,9 @@ def _listing(sched):
         return ()
     out = []
     for d, _dirs, files in os.walk(root):
+        if not files and not _dirs:
+            # an empty directory (created ahead of a write, or left after a removal) is state too
+            out.append((os.path.relpath(d, root) + "/", -2, b""))
         for f in files:
             p = os.path.join(d, f)
             try:
